@@ -111,7 +111,8 @@ def b01 (b : Bool) : String := if b then "1" else "0"
 def ordS : Ordering → String
   | .lt => "lt" | .eq => "eq" | .gt => "gt"
 
-/-- the hypotheses `FloatLaws` of Lemmas/C14Equal, evaluated on three concrete numbers -/
+/-- the hypotheses `FloatLaws` (Lemmas/C14Equal) and `HashLaws` (Lemmas/C14Hash), evaluated on three
+concrete numbers -/
 def flawsOn (a b c : Num) : Bool :=
   let x := a.toF F; let y := b.toF F; let z := c.toF F
   let nn := fun (u : UInt64) => !F.isNaN u
@@ -122,7 +123,11 @@ def flawsOn (a b c : Num) : Bool :=
   (!(F.eq x y && F.eq y z) || F.eq x z) &&
   (!(F.lt x y && F.lt y z) || F.lt x z) &&
   (F.le x y == (F.lt x y || F.eq x y)) &&
-  (match a with | .i n => nn (F.ofInt n) | _ => true)
+  (match a with | .i n => nn (F.ofInt n) | _ => true) &&
+  -- HashLaws (Lemmas/C14Hash)
+  (!F.eq x y || F.toInt x == F.toInt y) &&
+  (!F.eq x y || (F.eq z x == F.eq z y)) &&
+  (!F.eq x y || x == y || F.eq (F.ofInt (F.toInt x)) x)
 
 def handle (st : St) (line : String) : St × String :=
   match parseLine line with
@@ -137,7 +142,7 @@ def handle (st : St) (line : String) : St × String :=
     (match parseVal a, parseVal b with
      | some x, some y =>
        let cv := match compareValues F x y with | some o => ordS o | none => "E"
-       (st, s!"eq={b01 (veq F true x y)} ne={b01 (vne F true x y)} lt={ob (vlt F x y)} gt={ob (vgt F x y)} le={ob (vle F x y)} ge={ob (vge F x y)} cv={cv} keq={b01 (keyEq F x y)} heq={b01 (hashEq x y)} kcmp={ordS (keyCmp F x y)} speq={b01 (veq F false x y)} hashable={b01 (hashable x)}")
+       (st, s!"eq={b01 (veq F true x y)} ne={b01 (vne F true x y)} lt={ob (vlt F x y)} gt={ob (vgt F x y)} le={ob (vle F x y)} ge={ob (vge F x y)} cv={cv} keq={b01 (keyEq F x y)} heq={b01 (hashEq F x y)} kcmp={ordS (keyCmp F x y)} speq={b01 (veq F false x y)} hashable={b01 (hashable x)}")
      | _, _ => (st, "bad-request"))
   | [.atom "sortvals", v] =>
     (match parseVal v with
